@@ -352,6 +352,24 @@ func errCmpH(e ssa.Value, holds func(ssa.Value, bool) bool, wantNil bool) bool {
 	return false
 }
 
+// phiKnownNil: every value the phi receives is the nil constant or an error that was found nil on the
+// edge that carries it (`for … { if err = f(); err != nil { break } }` seen from the loop header).
+func phiKnownNil(phi *ssa.Phi) bool {
+	for i, e := range phi.Edges {
+		if ir.IsNilConst(e) || e == ssa.Value(phi) {
+			continue
+		}
+		p := phi.Block().Preds[i]
+		holds := func(v ssa.Value, want bool) bool {
+			return ir.HoldsAt(v, want, p) || ir.HoldsOnEdge(v, want, p, phi.Block())
+		}
+		if e.Referrers() == nil || !errCmpH(e, holds, true) {
+			return false
+		}
+	}
+	return len(phi.Edges) > 0
+}
+
 func errIsNilAtOld(e ssa.Value, b *ssa.BasicBlock) bool {
 	for _, u := range *e.Referrers() {
 		bo, ok := u.(*ssa.BinOp)
@@ -978,6 +996,9 @@ func val4(c *Ctx) {
 			}
 			if errCmpH(r.Results[0], r.Holds, true) {
 				continue // an error variable that is known to be nil on this way out
+			}
+			if phi, isPhi := r.Results[0].(*ssa.Phi); isPhi && phiKnownNil(phi) {
+				continue // a loop-carried error variable that only ever receives nil
 			}
 			if b, isC := ir.ConstBool(r.Results[0]); isC && b {
 				continue
